@@ -61,9 +61,9 @@ XSTYLES = 4
 
 
 def render_cv_x(it):
-    """5: unit attributes BEFORE the accession (the regular expression's `accession="` also occurs inside `unitAccession="`,
-    the search has to go on); 6: nothing but accession and value; 7: explicit end tag on the same line; 8: tabs and several
-    blanks between the attributes"""
+    """5: unit attributes BEFORE the accession (`unitAccession="UO:…"` is written with a capital A, so the regular expression's
+    `accession="` does not occur in it); 6: nothing but accession and value; 7: explicit end tag on the same line; 8: tabs
+    instead of blanks between the attributes"""
     a, v, n = it["acc"], it["value"], it.get("name", "p")
     cvref = a.split(":")[0]
     val = "" if v is None else f' value="{v}"'
@@ -74,8 +74,8 @@ def render_cv_x(it):
         return f'<cvParam accession="{a}"{val}/>'
     if k == 2:
         return f'<cvParam cvRef="{cvref}" accession="{a}" name="{n}"{val}></cvParam>'
-    tv = "" if v is None else f'\t  value="{v}"'
-    return f'<cvParam\tcvRef="{cvref}"\taccession="{a}" \t name="{n}"{tv}\t/>'
+    tv = "" if v is None else f'\tvalue="{v}"'
+    return f'<cvParam\tcvRef="{cvref}"\taccession="{a}"\t\tname="{n}"{tv}\t/>'
 
 
 def text_doc(doc):
@@ -1074,6 +1074,10 @@ class C17(Prop):
                 mcb = {"result": {"raises": "ValueError"}, "positions": rep["calls_free"][:fail + 1]}
             else:
                 mcb = {"result": canon_model(cbrep["fast"]), "positions": cbrep["calls"]}
+            if len(cbrep["ok_outcomes"]) != 1:
+                # the callback handed back an object that is neither False nor True: nothing is demanded of what follows
+                feats.add("callback-value:unspecified (recorded only)")
+                mcb = impl["callback"]
             model = {"fast": mfast, "xml": want, "callback": mcb}
             return outcome(impl, model, model, hyp=False, spec_ok=True, features=feats)
 
